@@ -136,12 +136,12 @@ def path_of(ds, sel):
     return "chunked-multi-dim" if sum(1 for x in sp if x > 1) > 1 else "chunked-multi-1-dim"
 
 
-def d9_class(ds, sel):
+def d9_class(ds, sel, invalid=False):
     """Selection-shape predicates = dispatch conditions of the code BEFORE the repairs (D9)."""
     dims = ds["dims"]
     vals = sel["start"] + sel["count"] + (sel["stride"] or []) + (sel["block"] or [])
-    if any(v > 2 ** 62 for v in vals):
-        return "C09-validate-overflow"
+    if invalid:
+        return "C09-validate-overflow" if any(v > 2 ** 62 for v in vals) else None
     try:
         axes = sel_axes(sel, len(dims))
     except Exception:
@@ -201,7 +201,7 @@ def chunk_shapes(dims, every):
     return [list(c) for c in itertools.product(*cand)]
 
 
-def small_datasets(maxext, maxrank, rng, tier):
+def small_datasets(maxext, maxrank, rng, tier, ext_of_rank=None):
     """Complete enumeration over small extents (generator: the thorough tier does not fit in memory at once)."""
     pv = {n: per_dim_valid(n) for n in range(1, maxext + 1)}
     # rank 1: every parameter tuple in [0, n+1]^4 (valid and invalid), both APIs
@@ -213,7 +213,7 @@ def small_datasets(maxext, maxrank, rng, tier):
             yield dict(layout=lay, dims=[n], chunk=ch, sels=sels, origin="exhaustive-rank1")
     # rank 2..maxrank: every valid selection; invalid ones by replacing one dimension
     for rank in range(2, maxrank + 1):
-        for dims in itertools.product(range(1, maxext + 1), repeat=rank):
+        for dims in itertools.product(range(1, (ext_of_rank or {}).get(rank, maxext) + 1), repeat=rank):
             dims = list(dims)
             valid = [mk("hyperslab", list(axes), nil_defaults=(i % 5 == 0))
                      for i, axes in enumerate(itertools.product(*[pv[d] for d in dims]))]
@@ -508,7 +508,52 @@ class CoqBatch:
             return [b for part in ex.map(one, enumerate(self.files)) for b in part]
 
 
+def replay(ctx):
+    """Re-run the single case stored in a replay file on the Go code, the oracle and the Coq model."""
+    H = ctx.harness
+    payload = json.load(open(ctx.replay))
+    d = payload.get("detail", payload)
+    fi = d.get("failing_input") or d.get("case") or {}
+    ds = dict(fi.get("dataset") or {})
+    if not ds:
+        print("replay: the file carries no dataset/selection (%s)" % payload.get("what"))
+        return dict(violations=[], known=[], coverage=dict(evaluations=0, rule="replay", samples=[], distinct_nontrivial=0))
+    toi = lambda v: None if v is None else [int(x) for x in v]
+    sels = []
+    if fi.get("selection"):
+        js = fi["selection"]
+        sels = [dict(api=js["api"], start=toi(js["start"]), count=toi(js["count"]), stride=toi(js["stride"]), block=toi(js["block"]))]
+    ds["sels"] = sels
+    r = vlib.run_harness(H, "c09", [jcase(ds)])[0]
+    viol = []
+    print("replay dataset:", json.dumps(dsd_of(ds)))
+    if "full" not in r:
+        print("  full Read failed:", {k: v for k, v in r.items() if k != "sels"})
+        viol.append(dict(what="full Read failed", failing_input=fi, impl=str(r)[:500]))
+        return dict(violations=viol, known=[], coverage=dict(evaluations=1, rule="replay", samples=[], distinct_nontrivial=0))
+    full = r["full"]
+    for sel, o in zip(sels, r["sels"]):
+        obs, exp = observed(o), oracle(full, ds["dims"], sel)
+        print("  selection      :", json.dumps(jsel(sel)))
+        print("  implementation :", obs, ("(%s)" % (o.get("err") or o.get("panic"))) if obs in ("err", "panic") else "")
+        print("  specification  :", exp)
+        call = ccall(sel, "err", lambda v: v).rsplit(",", 1)[0][1:]
+        fdef = "nrange %d" % len(full) if ds.get("origin") != "corpus" and all(isinstance(v, int) for v in full) and full == list(range(len(full))) else None
+        if fdef:
+            out = vlib.coq_eval("From HV Require Import Base.Prelude Model.Hyperslab Model.HyperslabTie.\n"
+                                "Definition R := Eval vm_compute in run_call %s (%s) %s %s.\nPrint R.\n" % (clayout(ds), fdef, cl(ds["dims"]), call), "c09replay")
+            print("  Coq model      :", " ".join(out.split()))
+        print("  verdict        :", "agrees with the specification" if obs == exp else "VIOLATES the specification")
+        if obs != exp:
+            viol.append(dict(what="replayed case still violates the specification", failing_input=fi, impl=obs, spec=exp))
+    if ds["layout"] == "chunked" and not sels:
+        print("  iterator       :", json.dumps(r.get("iter"))[:2000])
+    return dict(violations=viol, known=[], coverage=dict(evaluations=len(sels), rule="replay of one stored case", samples=[], distinct_nontrivial=0))
+
+
 def run(ctx):
+    if getattr(ctx, "replay", None):
+        return replay(ctx)
     H, rng, tier = ctx.harness, ctx.rng, ctx.tier
     t0 = time.time()
     kf = {k["id"]: k for k in vlib.known_findings("C09")}
@@ -517,7 +562,8 @@ def run(ctx):
         gen = itertools.chain(small_datasets(5, 3, rng, tier), random_datasets(rng, 400, 80))
         ncorp, coq_budget = 120, 120000
     else:
-        gen = itertools.chain(small_datasets(4, 2, rng, tier), random_datasets(rng, 60, 40))
+        # (rank 3 with extents <= 3 is an extra of the quick tier: it is the only exhaustive cover of the selection-run path)
+        gen = itertools.chain(small_datasets(4, 3, rng, tier, {3: 3}), random_datasets(rng, 60, 40))
         ncorp, coq_budget = 40, 7000
     corp, corpus_missing = corpus_datasets(H, rng, ncorp)
     gen = itertools.chain(gen, corp)
@@ -526,7 +572,7 @@ def run(ctx):
     if tier == "thorough":
         expect = 40000 + sum(n * tot[n] for n in range(1, 6)) ** 2 + sum(tot.values()) ** 3 * 3
     else:
-        expect = 10000 + sum(n * tot[n] for n in range(1, 5)) ** 2 + sum(tot[n] for n in range(1, 5)) ** 2
+        expect = 10000 + sum(n * tot[n] for n in range(1, 5)) ** 2 + sum(tot[n] for n in range(1, 5)) ** 2 + 3 * sum(tot[n] for n in range(1, 4)) ** 3
     frac = min(1.0, coq_budget / expect)
 
     def batches():
@@ -592,7 +638,7 @@ def run(ctx):
                     if len(samples) < 6 and len(exp) > 3 and rng.random() < 0.002:
                         samples.append(dict(dataset=dsd_of(ds), selection=sel, go=obs, oracle=exp))
                 if obs != exp:
-                    cls = d9_class(ds, sel)
+                    cls = d9_class(ds, sel, invalid=(exp == "err"))
                     if cls in kf:
                         known_hits[cls] += 1
                         known_witness.setdefault(cls, dict(dataset=dsd_of(ds), selection=jsel(sel), go=obs, spec=exp))
@@ -684,6 +730,6 @@ def run(ctx):
         corpus_missing=corpus_missing, known_findings_not_reproduced=[k for k in kf if k not in known_hits],
         programs=ndatasets, disagreements_checked=evaluations,
         samples=samples[:6], seconds=dict(go=round(t_go, 1), coq=round(t_coq, 1), total=round(time.time() - t0, 1)),
-        exhaustive="all selections with every extent <= %s" % ("5 (rank <= 3)" if tier == "thorough" else "4 (rank <= 2)"),
+        exhaustive="all selections with every extent <= %s" % ("5 (rank <= 3)" if tier == "thorough" else "4 (rank <= 2), <= 3 (rank 3)"),
     )
     return dict(violations=viol, known=known, coverage=cov)
